@@ -73,7 +73,7 @@ func VerifC01Digits() {
 	nd.Reach("C01.digits")
 }
 
-const c01Kinds = 14
+const c01Kinds = 16
 
 func c01Value(k int) any {
 	switch k {
@@ -104,6 +104,10 @@ func c01Value(k int) any {
 	case 12:
 		x := nd.Int()
 		return &x
+	case 14:
+		return map[any]any{"k": 1, 2: "x", true: nil}
+	case 15:
+		return map[any]any{}
 	default:
 		return struct {
 			A int
